@@ -442,7 +442,7 @@ impl Property for C20 {
     }
 
     fn generate(&self, rng: &mut Rng, tier: Tier) -> Case {
-        let family = match rng.below(25) {
+        let family = match rng.below(26) {
             0..=4 => "valid",
             5..=6 => "invalid",
             7..=9 => "read-fault",
@@ -452,7 +452,8 @@ impl Property for C20 {
             18..=19 => "preset",
             20..=22 => "file-read-fault",
             23 => "stdin-preset",
-            _ => "stderr-preset",
+            24 => "stderr-preset",
+            _ => "missing-file",
         };
         let mut case = Case::new("C20", family);
         let big = rng.chance(1, 8);
@@ -473,6 +474,18 @@ impl Property for C20 {
             schema_only: false,
         };
         case.pieces = gen_stream(rng, &w);
+        if rng.chance(1, 10) && !case.pieces.is_empty() {
+            // one very large record (a row or cell beyond any 8 KiB buffer) among small ones
+            let at = rng.below(case.pieces.len() + 1);
+            let big = match rng.below(3) {
+                0 => format!("\"{}\"", "x".repeat(rng.range(8200, 20000))),
+                1 => format!("{{\"id\":7,\"s\":\"{}\",\"arr\":[1]}}", "y".repeat(rng.range(8200, 12000))),
+                _ => format!("[{}0]", "12345,".repeat(rng.range(1400, 3000))),
+            };
+            case.pieces.insert(at, Piece::gap(vec![b'\n']));
+            case.pieces.insert(at, Piece::rec(big.into_bytes(), 9999));
+            case.pieces.insert(at, Piece::gap(vec![b'\n']));
+        }
         let mut wish = PipeWish::any();
         wish.allow_corpus = false;
         let mut pipe = gen_pipe(rng, &wish);
@@ -564,6 +577,12 @@ impl Property for C20 {
             "stdin-preset" => {
                 case.set("stdin", rng.range(1, 2) as i64);
             }
+            "missing-file" => {
+                // 0 = the only argument, 1 = after a real file, 2 = before a real file
+                // (after a real file only when nothing can stop the run before it gets there)
+                let stops_early = has_opt(&case.opts, "--take") || policy_of(&case.opts) == Policy::Panic;
+                case.set("where", if stops_early { *rng.pick(&[0i64, 2]) } else { rng.below(3) as i64 });
+            }
             "stderr-preset" => {
                 case.opts.retain(|o| !o[0].starts_with("--on-error"));
                 case.opts.push(policy_opt(Policy::Stderr));
@@ -591,6 +610,7 @@ impl Property for C20 {
         match case.family.as_str() {
             "file-read-fault" => return check_file_fault(case, ctx),
             "stdin-preset" => return check_stdin_preset(case, ctx),
+            "missing-file" => return check_missing_file(case, ctx),
             "stderr-preset" => return check_stderr_preset(case, ctx),
             _ => {}
         }
@@ -1026,6 +1046,63 @@ fn check_stderr_preset(case: &Case, ctx: &mut Ctx) -> Option<Violation> {
         return viol(
             "C20.rows-on-stdout",
             format!("stderr is {kind:?}: standard output is not a prefix of the fault-free output: {} vs {}", show(&r.out), show(&f.out)),
+        );
+    }
+    None
+}
+
+/// A file argument that does not exist: input failed, so the status is non-zero and there
+/// is a message on standard error (how the failure is worded, or whether it is a panic, is
+/// not judged).
+fn check_missing_file(case: &Case, ctx: &mut Ctx) -> Option<Violation> {
+    let input = case.stream();
+    let paths = ctx.fresh_paths(2);
+    let real = paths[0].clone();
+    let missing = format!("{}.does-not-exist", paths[1]);
+    let stops_early = has_opt(&case.opts, "--take") || policy_of(&case.opts) == Policy::Panic;
+    if case.param("where") == 1 && stops_early {
+        ctx.stats.invalid = true;
+        return None;
+    }
+    let order: Vec<String> = match case.param("where") {
+        0 => vec![missing.clone()],
+        1 => vec![real.clone(), missing.clone()],
+        _ => vec![missing.clone(), real.clone()],
+    };
+    // reference: the real file alone (decides whether the configuration itself is valid)
+    let mut cfg = Cfg::plain();
+    cfg.files = vec![input.clone()];
+    let f = try_spawn!(ctx, spawn_cfg(case, b"", &cfg, &[real.clone()], ctx));
+    if f.timed_out || f.status.is_none() {
+        return viol("C20.hang", format!("child on one real file: {}", f.describe()));
+    }
+    // the run with the missing argument: spawn by hand (the real file must exist, the other not)
+    if std::fs::write(&real, &input).is_err() {
+        ctx.harness_error = Some("cannot write input file".into());
+        return None;
+    }
+    let mut c2 = case.clone();
+    c2.opts.push(std::iter::once("--".to_string()).chain(order.iter().cloned()).collect());
+    let r = try_spawn!(ctx, spawn_cfg(&c2, b"", &Cfg::plain(), &[], ctx));
+    let _ = std::fs::remove_file(&real);
+    ctx.stats.nontrivial = true;
+    ctx.stats.fault("input.missing-file-argument", 1);
+    if r.timed_out {
+        return viol("C20.hang", format!("child with a missing file argument did not finish: {}", r.describe()));
+    }
+    if r.status == Some(0) {
+        return viol(
+            "C20.exit-fail",
+            format!("a file argument does not exist but the exit status is 0: {}", r.describe()),
+        );
+    }
+    if r.err.is_empty() {
+        return viol("C20.exit-fail", format!("missing file argument: failure without a message on stderr: {}", r.describe()));
+    }
+    if f.status == Some(0) && classify(&case.opts) != Class::Buffering && policy_of(&case.opts) != Policy::Stdout && !is_prefix(&r.out, &f.out) {
+        return viol(
+            "C20.rows-on-stdout",
+            format!("missing file argument: standard output is not a prefix of the output for the existing file: {} vs {}", show(&r.out), show(&f.out)),
         );
     }
     None
